@@ -46,6 +46,7 @@ def handle (f : List String) : String :=
   | "readd" :: _ => "readd ok"
   -- likewise for the bucket counts of a histogram's tuples: each tuple has its own datum
   | "hist" :: _ => "hist ok"
+  | "vmdel" :: _ => "vmdel ok"
   | ["conc", a, w, _] => match parseTuple a with
       | some a => conc a w.toNat!
       | none => "BAD-CASE"
